@@ -1184,6 +1184,23 @@ class DiskRefsContainer(RefsContainer):
             # errors depending on the specific operating system
             return None
 
+    def _remove_empty_dirs(self, filename: bytes) -> None:
+        """Remove a directory tree without files left at the path of a ref.
+
+        Deleting or failing to update ``refs/heads/a/b`` can leave the empty
+        directory ``refs/heads/a`` behind, which would make writing the ref
+        ``refs/heads/a`` fail. Like git, get such directories out of the way.
+        A directory that still contains files (loose refs or their locks) is a
+        genuine conflict and is left alone.
+        """
+        if not os.path.isdir(filename) or os.path.islink(filename):
+            return
+        for root, _dirs, files in os.walk(filename, topdown=False):
+            if files:
+                return
+            with suppress(OSError):
+                os.rmdir(root)
+
     def _remove_packed_ref(self, name: Ref) -> None:
         if name not in self.get_packed_refs():
             return
@@ -1234,6 +1251,8 @@ class DiskRefsContainer(RefsContainer):
         self._check_refname(name)
         self._check_refname(other)
         filename = self.refpath(name)
+        ensure_dir_exists(os.path.dirname(filename))
+        self._remove_empty_dirs(filename)
         f = GitFile(filename, "wb")
         try:
             f.write(SYMREF + other + b"\n")
@@ -1327,6 +1346,8 @@ class DiskRefsContainer(RefsContainer):
             except OSError:
                 f.abort()
                 raise
+            # an empty directory left at the path must not stop the rename
+            self._remove_empty_dirs(filename)
             self._log(
                 realname,
                 old_ref,
@@ -1372,6 +1393,7 @@ class DiskRefsContainer(RefsContainer):
         self._check_refname(realname)
         filename = self.refpath(realname)
         ensure_dir_exists(os.path.dirname(filename))
+        self._remove_empty_dirs(filename)
         with GitFile(filename, "wb") as f:
             if os.path.exists(filename) or name in self.get_packed_refs():
                 f.abort()
@@ -1436,7 +1458,9 @@ class DiskRefsContainer(RefsContainer):
             # crash) between the two steps would see a stale value.
             self._remove_packed_ref(name)
 
-            # remove the reference file itself
+            # remove the reference file itself; an empty directory left at
+            # its path (there is no loose ref then) is removed with it
+            self._remove_empty_dirs(filename)
             try:
                 found = os.path.lexists(filename)
             except OSError:
